@@ -324,12 +324,12 @@ def txAncestors (s : Pool) (t : Tx) : List Nat × List Nat × List Nat :=
 /-- `_record_ancestors`; `none` = `get_by_id_checked` panics ("inconsistent pool") -/
 def recordAncestors (s : Pool) (e : Entry) (ancestors parents : List Nat) : Option (Pool × Entry) :=
   if ancestors.all (fun a => (getEntry s a).isSome) then
-    let e := ancestors.foldl (fun e a => match getEntry s a with
+    let e' := ancestors.foldl (fun e a => match getEntry s a with
       | some x => addAnc x.tx.w e
       | none => e) e
     let L := modLink s.links parents fun l => { l with children := insertNew l.children e.tx.id }
     let L := (L.filter (·.1 ≠ e.tx.id)) ++ [(e.tx.id, { parents := parents, children := [] })]
-    some ({ s with links := L }, e)
+    some ({ s with links := L }, e')
   else none
 
 /-- the eviction loop of `check_and_record_ancestors` -/
